@@ -3,6 +3,8 @@ from .. import core
 from .. import truth as TR
 from .. import world as W
 from . import _ws
+from .. import xpy
+from .. import common as C
 
 ID = 'C04'
 TIERS = {'quick': {'seeds': 15000, 'seconds': 45, 'determinism': 48},
@@ -23,8 +25,35 @@ BIAS = dict(p_weird_ids=0.15, n_test_faults=[0, 1, 2, 3, 4, 5], n_layer_faults=[
             profile=dict(p_doctest=0.2, p_subtests=0.25, p_setup=0.6, p_teardown=0.6, p_cleanup=0.35))
 
 
+RULE += (' Cross-version tier (directed specs): the same world and fault plan also run as real '
+         'processes under CPython 3.9/3.10/3.11/3.13; where the simulated run returned, the real '
+         'run must end with exit status 0 or 1, no traceback of its own on stderr and a summary.')
+
+
 def gen(seed):
     return _ws.gen_ws(seed, ID, BIAS)
+
+
+def directed(tier, base_seed):
+    """Cross-version specs (vsim/xpy.py): unittest routes the exceptions of a test to the result
+    object differently in every version (subtests, cleanups, skips, expected failures)."""
+    out = []
+    n = 16 if tier == 'quick' else 300
+    k = 0
+    while len(out) < n and k < n * 6:
+        spec = gen(9900000 + base_seed * 1021 + k)
+        k += 1
+        if spec['opt'].get('pm') or spec['opt'].get('xml') or spec.get('knobs') or \
+                any(e['a'] not in ('raise', 'write') or e['site'] == 'channel'
+                    or str(e.get('stream', '')).startswith('realstderr')
+                    or e.get('exc') in ('KeyboardInterrupt', 'MemoryError')
+                    for e in spec['plan']):
+            continue
+        if any((L.get('c_raise') or []) for L in spec['world']['layers']):
+            continue
+        spec['xpy'] = True
+        out.append(spec)
+    return out
 
 
 def run(spec, ctx):
@@ -34,4 +63,23 @@ def run(spec, ctx):
     T = TR.Truth(m, res.trace)
     viols = _ws.oracle_contain(m, spec, res, T)
     multi = sum(1 for o in T.occs if len([k for k, _ in o['events'] if k in TR.BAD]) >= 2)
-    return _ws.std_out(spec, ctx, [res], viols, {'tests_with_2+_bad_events': multi})
+    xprobes = {}
+    if spec.get('xpy') and not res.raised and not res.hang and not viols:
+        for ver, py in xpy.interpreters():
+            real = xpy.execute(spec, W.argv(spec['opt'], src), ctx.scratch, py)
+            if real is None:
+                xprobes['xpy_unavailable'] = xprobes.get('xpy_unavailable', 0) + 1
+                continue
+            xprobes['xpy_runs_py' + ver] = 1
+            crashed = real.exit not in (0, 1) or \
+                'Traceback (most recent call last)' in real.stderr
+            if crashed:
+                viols.append(C.viol('C04/escaped/py' + ver,
+                                    'under CPython %s (real process) the run ended with exit '
+                                    'status %r and this on stderr: %s'
+                                    % (ver, real.exit, real.stderr[-600:])))
+            elif C.RAN_RE.search(res.text) and not C.RAN_RE.search(real.text):
+                viols.append(C.viol('C04/no-summary/py' + ver,
+                                    'under CPython %s (real process) no "Ran ..." summary line '
+                                    'is printed; output ends: %s' % (ver, real.text[-400:])))
+    return _ws.std_out(spec, ctx, [res], viols, dict(xprobes, **{'tests_with_2+_bad_events': multi}))
